@@ -45,9 +45,37 @@ Hist(S, ops, steps, U, k) ==
           \o FileClauses(S2, "f1", o.f1, U) \o FileClauses(S2, "f2", o.f2, U)
           \o Hist(S2, ops, steps, U, k + 1)
 
+(* st.rootattrs: an operation whose destination is the ROOT of an existing file that carries attributes of its own
+   (written by another tool, or the root of a multi-resolution file): cp across files, create in append / write mode *)
+AttrFun(pairs) == [n \in {pr[1] : pr \in Range(pairs)} |-> (CHOOSE pr \in Range(pairs) : pr[1] = n)[2]]
+RootAttrClauses(e) ==
+  LET before == AttrFun(e.obs.before)
+      after == AttrFun(e.obs.after)
+      src == AttrFun(e.obs.src)
+      op == e.case.op
+  IN
+  IF op = "cp" THEN
+  << <<"outcomeOk", e.obs.err = "">>,
+     <<"recognitionAnswers", e.obs.is_cooler>>,
+     <<"copyReadsAsSource", e.obs.dst_info = e.obs.src_info /\ e.obs.dst_content = e.obs.src_content>>,
+     <<"attributesAsModel", after = AttrsAfterCopyOntoRoot(before, src)>>,
+     <<"foreignMembersKept", e.obs.foreign_member_after>> >>
+  ELSE IF op = "create_a" THEN
+  << <<"outcomeOk", e.obs.err = "">>,
+     <<"recognitionAnswers", e.obs.is_cooler>>,
+     <<"unrelatedAttributesIntact", UnrelatedKept(before, after)>>,
+     <<"attributesBelongToContent", e.obs.dst_assembly = e.case.assembly /\ e.obs.dst_meta_c = e.case.c /\ e.obs.dst_content = e.case.c>>,
+     <<"foreignMembersKept", e.obs.foreign_member_after>> >>
+  ELSE
+  << <<"outcomeOk", e.obs.err = "">>,
+     <<"recognitionAnswers", e.obs.is_cooler>>,
+     <<"writeModeReplacesFile", NothingForeignLeft(before, after) /\ ~e.obs.foreign_member_after>>,
+     <<"attributesBelongToContent", e.obs.dst_assembly = e.case.assembly /\ e.obs.dst_meta_c = e.case.c /\ e.obs.dst_content = e.case.c>> >>
+
 \* how many operations of the history were judged (for the evidence)
 Clauses(e) ==
   CASE e.drv = "st.history" -> Hist(EmptyStore, e.case.ops, e.obs.steps, Range(e.case.paths), 1)
+    [] e.drv = "st.rootattrs" -> RootAttrClauses(e)
     [] OTHER -> << <<"unknownDriver", FALSE>> >>
 
 Init == l = 1 /\ KitInit
